@@ -68,8 +68,12 @@ def _tasks(tier, seed):
             # 5 of 8 slots go to frames without extra dates
             j = (0, 1, 5, 2, 3, 6, 4, 0, 7, 1)[i % 10]
             i += 1
+            # every third frame is analysed by an object that was fitted
+            # (and asked for a report) on ANOTHER frame of the same shape
+            # before: the report must be that of the current fit
             tasks.append(dict(seed=s, n_pre=n_pre, n_test=n_test,
-                              n_cool=n_cool, cost=cost, pres=pres[j]))
+                              n_cool=n_cool, cost=cost, pres=pres[j],
+                              refit=(i % 3 == 0)))
   return tasks
 
 
@@ -84,6 +88,20 @@ def _work(task):
   frame = L.build(spec)
   extra = spec['extra_before'] + spec['extra_after'] > 0
   model = tbr_iroas.TBRiROAS(use_cooldown=True)
+  if task.get('refit'):
+    other = L.build(L.default_spec(
+        seed=task['seed'] + 1, n_pre=task['n_pre'], n_test=task['n_test'],
+        n_cool=task['n_cool'], cost=task['cost'], **task['pres']))
+    try:
+      model.fit(other)
+      for metric, _ in METRICS:
+        model.estimate_pointwise_and_cumulative_effect(metric=metric,
+                                                       level=0.9, tails=2)
+      model.summary(level=0.9, posterior_threshold=0.0, tails=1,
+                    random_state=1)
+    except Exception:  # pylint: disable=broad-except
+      pass           # the earlier use is only there to leave state behind
+    sj = dict(sj, refit_after_seed=task['seed'] + 1)
   model.fit(frame)
   fixed = bool(model._is_fixed_cost_scenario())   # label checked by C07
   for metric, column in METRICS:
@@ -199,7 +217,8 @@ def run(tier, seed):
       'n_test in {1,3,9} x cooldown {0,3} days x cost scenario {zero, '
       'tiny(1e-13), variable} x seeds, cycling through 8 presentations (1-4 '
       'geos per group, unassigned geos labelled 0/-1/NaN, shuffles; 3 of them '
-      'with dates outside the experiment); fit with use_cooldown=True, then '
+      'with dates outside the experiment); fit with use_cooldown=True (every '
+      'third frame on an object already fitted and used on another frame), then '
       'estimate_pointwise_and_cumulative_effect for metric in {tbr_response, '
       'tbr_cost} x level in {0.5,0.8,0.9,0.99,0.3} x tails in {1,2}, checked '
       'against a NumPy recomputation from the raw frame. non-trivial = the '
